@@ -122,7 +122,7 @@ def run(ctx, info):
                      "task": search.cont_task(obj="noisy:" + r.choice(["sphere", "rastrigin"]), minmax=r.choice(["min", "max"]), seed=r.randint(0, 10**6), dim=2, lo=-3.0, hi=3.0)})
     from .. import edgesuite
     elit = sorted(set(pinned) | set(observed))
-    edgesuite.run(ctx, "monotone", names=(r.sample(elit, 8 * boost) if ctx.quick else elit), focus=list(changed) + list(focus), elitist=set(elit))
+    edgesuite.run(ctx, "monotone", info=info, names=(r.sample(elit, 8 * boost) if ctx.quick else elit), focus=list(changed) + list(focus), elitist=set(elit))
     obs = search.run_jobs(jobs)
     n_ok = 0
     for o in obs:
